@@ -665,6 +665,9 @@ Definition in_domain (c : case) : bool :=
       doc_ok d0 && match p0 with [] => false | _ => true end &&
       match init_state d0 p0 raw with Some s => hist_okb s d0 (map fst steps) | None => false end
   | CText _ _ _ _ _ => false
+  | CHistX d0 p0 raw extra steps =>
+      doc_ok d0 && match p0 with [] => false | _ => true end &&
+      match init_state d0 p0 raw with Some s => hist_okb (fst s ++ extra, snd s) d0 (map fst steps) | None => false end
   end.
 
 (* verdict of run_case, plus 4 when the history is outside the domain of the theorems *)
@@ -702,4 +705,38 @@ Theorem reachable_Inv_plain d0 p0 raw ops s : doc_ok d0 = true -> p0 <> [] -> in
 Proof.
   intros A B C D. pose proof (history_content d0 p0 raw ops s A B C D) as H. destruct (run s ops) as [fs' o'].
   destruct H as [H1 [H2 _]]. split; assumption.
+Qed.
+
+
+(* ---------------------------------------------------------------- other files in the directory *)
+Lemma fs_get_app_l fs extra p b : fs_get fs p = Some b -> fs_get (fs ++ extra) p = Some b.
+Proof.
+  induction fs as [|[q c] fs IH]; [discriminate|]. cbn [fs_get app]. destruct (beq p q); auto.
+Qed.
+
+(* the invariant does not look at the other files: any files may already be there (empty, a lone newline, garbage ...) *)
+Lemma SInv_extra fs o d extra : SInv fs o d -> SInv (fs ++ extra) o d.
+Proof.
+  intros [c [Hd [tws [its [st' H]]]]]. destruct H as (A1&A2&A3&A4&A5&A6&A7&A8&A9&Ef&A11&A12).
+  exists c. split; [exact Hd|]. exists tws, its, st'. repeat (split; [assumption|]). split; [now apply fs_get_app_l|]. split; assumption.
+Qed.
+
+Lemma run_SInv_Inv s ops d' :
+  (let '(fs', o') := run s ops in SInv fs' o' d') ->
+  let '(fs', o') := run s ops in
+  fs_get fs' (o_file o') = Some (o_contents o') /\ parse (o_contents o') = Some (o_state o') /\ sem d' = Some (o_state o').
+Proof. destruct (run s ops) as [fs' o']. intros R. destruct (SInv_Inv _ _ _ R) as [[A B] C]. auto. Qed.
+
+Theorem in_domain_historyX d0 p0 raw extra steps : in_domain (CHistX d0 p0 raw extra steps) = true ->
+  exists fs o, init_state d0 p0 raw = Some (fs, o) /\
+  let '(fs', o') := run (fs ++ extra, o) (map fst steps) in
+  fs_get fs' (o_file o') = Some (o_contents o') /\ parse (o_contents o') = Some (o_state o') /\
+  sem (spec_doc d0 (map fst steps)) = Some (o_state o').
+Proof.
+  cbn [in_domain]. intros H. apply andb_true_iff in H as [H H3]. apply andb_true_iff in H as [H1 H2].
+  assert (Hp : p0 <> []) by (destruct p0; discriminate).
+  destruct (init_SInv' d0 p0 raw H1 Hp) as [fs [o [E [HI _]]]]. rewrite E in H3. cbn [fst snd] in H3.
+  exists fs, o. split; [exact E|].
+  pose proof (reachable_Inv (map fst steps) (fs ++ extra) o d0 (SInv_extra _ _ _ extra HI) (hist_okb_sound _ _ _ H3)) as R.
+  exact (run_SInv_Inv _ _ _ R).
 Qed.
